@@ -193,3 +193,135 @@ Proof.
 Qed.
 
 End RO.
+
+(* ---- the same with openat2 absent: every procfs step through the emulated resolver ---- *)
+
+Section ROE.
+Variable s : fs.
+Variable rp : bytes.
+Variable fz : nat.
+Hypothesis Hfz : fz <> 0%nat.
+Variable gh : phandle.
+Hypothesis Hmnt : ph_mnt gh = Some PROC_MNT.
+Hypothesis Ho2 : ph_openat2 gh = false.
+
+Notation run := (run s rp).
+
+Lemma run_open_base_emu t :
+  tget t (ph_fd gh) = Some (PB s) ->
+  exists n, run t (open_base fz false gh ProcThreadSelf) = Done ([(n, (PB s + 4)%nat)] ++ t) (Ok n) /\ Stk t [(n, (PB s + 4)%nat)].
+Proof.
+  intro HP. destruct (run_walk_thread_self s rp fz Hfz t (ph_fd gh) HP) as (n5 & Hw1 & S5).
+  exists n5. split; [|exact S5].
+  unfold open_base, bindR. rewrite (run_bind s rp).
+  assert (Hinto : run t (into_path fz (ph_fd gh) ProcThreadSelf) = Done t (b "thread-self")).
+  { unfold into_path. cbn [Static.run]. unfold answer at 1. cbn [sem as_num thread_self_cands].
+    rewrite (run_bind s rp). unfold w_fstatat, simple1, rustix_path. rewrite (tget_valid _ _ _ HP).
+    change (has_nul (b "thread-self")) with false. cbn [negb Static.run]. unfold answer. cbn [sem].
+    rewrite (tget_not_cwd _ _ _ HP), HP. change (is_nil (b "thread-self")) with false.
+    rewrite Nat.eqb_refl. change (beq (b "thread-self") (b "thread-self")) with true. cbn [andb as_stat Static.run].
+    reflexivity. }
+  rewrite Hinto. rewrite (run_bind s rp). unfold presolve. rewrite Ho2.
+  change (procfs_flags_invalid OPEN_BASE_FLAGS) with false. cbv iota.
+  rewrite Hw1. cbv iota.
+  rewrite (run_bind s rp), (run_verify_proc s rp fz Hfz gh Hmnt _ n5 _ (stk_top t n5 _ [] S5)) by lia. reflexivity.
+Qed.
+
+Notation PFL := (N.lor OPEN_FOLLOW_PARENT_FLAGS PROCFS_OPEN_FORCED).
+
+(* ProcfsHandle::open(ProcThreadSelf, "fd", O_PATH|O_DIRECTORY) *)
+Lemma run_popen_fddir_emu pf t :
+  tget t (ph_fd gh) = Some (PB s) ->
+  exists m, run t (popen fz false (S pf) gh ProcThreadSelf (b "fd") OPEN_FOLLOW_PARENT_FLAGS) = Done ([(m, P_FDDIR s)] ++ t) (Ok m)
+            /\ Stk t [(m, P_FDDIR s)].
+Proof.
+  intro HP. destruct (run_open_base_emu t HP) as (n5 & Hb & S5).
+  cbn [popen]. unfold bindR. rewrite (run_bind s rp), Hb. cbv iota.
+  rewrite (run_bind s rp). unfold presolve. rewrite Ho2.
+  change (procfs_flags_invalid PFL) with false. cbv iota.
+  (* opath_resolve n5 "fd" *)
+  unfold opath_resolve, bindR.
+  pose proof (stk_top t n5 _ [] S5) as H5.
+  rewrite (run_bind s rp), (run_fetch_mnt s rp fz _ n5 _ H5).
+  destruct (Nat.leb_spec (PB s) (PB s + 4)) as [_|Hbad]; [|lia]. cbv iota.
+  rewrite (run_bind s rp), (run_dup s rp fz Hfz _ n5 _ H5). cbv iota.
+  set (d0 := fresh ([(n5, (PB s + 4)%nat)] ++ t)).
+  assert (Sd : Stk t [(d0, (PB s + 4)%nat); (n5, (PB s + 4)%nat)]) by (apply (stk_alloc t _ _ S5)).
+  change ((d0, (PB s + 4)%nat) :: [(n5, (PB s + 4)%nat)] ++ t) with ([(d0, (PB s + 4)%nat); (n5, (PB s + 4)%nat)] ++ t).
+  change (N.to_nat MAX_SYMLINK_TRAVERSALS) with (S (S 126)). rewrite pwalk_SS.
+  change (raw_components (b "fd")) with [b "fd"].
+  rewrite (body_final_step s rp fz Hfz PFL 0 _ _ d0 4 (b "fd") (P_FDDIR s) (stk_top t d0 _ _ Sd) eq_refl eq_refl eq_refl eq_refl
+             ltac:(intro; reflexivity) eq_refl ltac:(unfold P_FDDIR; lia) eq_refl ltac:(vm_compute; reflexivity)
+             ltac:(unfold P_FDDIR; rewrite (obj_is_dir_p s 5) by (unfold NP; lia); vm_compute; reflexivity)).
+  set (m1 := fresh ([(d0, (PB s + 4)%nat); (n5, (PB s + 4)%nat)] ++ t)).
+  assert (S1 : Stk t [(m1, P_FDDIR s); (d0, (PB s + 4)%nat); (n5, (PB s + 4)%nat)]) by (apply (stk_alloc t _ _ Sd)).
+  change ((m1, P_FDDIR s) :: [(d0, (PB s + 4)%nat); (n5, (PB s + 4)%nat)] ++ t)
+    with ([(m1, P_FDDIR s); (d0, (PB s + 4)%nat); (n5, (PB s + 4)%nat)] ++ t).
+  set (m2 := fresh ([(m1, P_FDDIR s); (d0, (PB s + 4)%nat); (n5, (PB s + 4)%nat)] ++ t)).
+  assert (S2 : Stk t [(m2, P_FDDIR s); (m1, P_FDDIR s); (d0, (PB s + 4)%nat); (n5, (PB s + 4)%nat)]) by (apply (stk_alloc t _ _ S1)).
+  change ((m2, P_FDDIR s) :: [(m1, P_FDDIR s); (d0, (PB s + 4)%nat); (n5, (PB s + 4)%nat)] ++ t)
+    with ([(m2, P_FDDIR s); (m1, P_FDDIR s); (d0, (PB s + 4)%nat); (n5, (PB s + 4)%nat)] ++ t).
+  rewrite (stk_close_second t m2 _ m1 _ _ S2).
+  pose proof (stk_drop_second t m2 _ m1 _ _ S2) as S2'.
+  rewrite (stk_close_second t m2 _ d0 _ _ S2').
+  pose proof (stk_drop_second t m2 _ d0 _ _ S2') as S2''.
+  cbv iota.
+  rewrite (run_bind s rp), (run_bind s rp), (run_verify_proc s rp fz Hfz gh Hmnt _ m2 _ (stk_top t m2 _ _ S2'')) by (unfold P_FDDIR; lia).
+  cbv beta iota. cbn [Static.run]. cbv beta iota. cbn [bind].
+  rewrite (run_bind s rp), run_close. cbn [Static.run]. cbv beta iota.
+  rewrite (stk_close_second t m2 _ n5 _ [] S2'').
+  exists m2. split; [reflexivity|exact (stk_drop_second t m2 _ n5 _ [] S2'')].
+Qed.
+
+Theorem run_reopen_emu pf t fd o exp flags :
+  tget t (ph_fd gh) = Some (PB s) ->
+  tget t fd = Some o -> (o < PB s)%nat -> FSModel.link_body s o = None ->
+  find_path s o = Some exp -> N.leb READLINK_BUF (N.of_nat (length (render rp exp))) = false ->
+  (intersects (without flags REOPEN_REMOVED) OPEN_FOLLOW_REFUSED || has_nz (without flags REOPEN_REMOVED) OPEN_FOLLOW_REFUSED_CONTAINS) = false ->
+  (has (N.lor (N.lor (without flags REOPEN_REMOVED) OPENAT_FORCED) O_LARGEFILE) O_DIRECTORY && negb (obj_is_dir s o)) = false ->
+  exists nfd, run t (reopen fz false (S pf) gh fd flags) = Done ((nfd, o) :: t) (Ok nfd).
+Proof.
+  intros HP Hfd Holt Hnl Hpath Hlen Hacc Hdir.
+  pose proof (tget_pos _ _ _ Hfd) as Hpos.
+  unfold reopen, bindR. rewrite (run_bind s rp), (run_fstatat s rp fz Hfz t fd o Hfd Holt). cbv iota. cbn [st_mode].
+  rewrite symlink_mode_of. rewrite link_body_kind in Hnl.
+  assert (Hk : match FSModel.kind_of s o with FSModel.KLnk _ => true | _ => false end = false)
+    by (destruct (FSModel.kind_of s o); try reflexivity; discriminate).
+  rewrite Hk. rewrite (proc_subpath_nonneg fd Hpos).
+  set (fl := without flags REOPEN_REMOVED) in *.
+  set (nm := dec (Z.to_N fd)).
+  unfold popen_follow. rewrite Hacc.
+  unfold nm. rewrite (strip_fd _ (dec_no_slash _) (dec_ne _)). fold nm.
+  rewrite (run_bind s rp).
+  pose proof (run_as_unsafe_path_emu s rp fz Hfz gh Hmnt Ho2 pf t fd o exp HP Hfd Hpath Hlen) as Hrl.
+  unfold as_unsafe_path in Hrl. rewrite (proc_subpath_nonneg fd Hpos) in Hrl. fold nm in Hrl. rewrite Hrl. cbv iota.
+  unfold nm. rewrite (split_fd _ (dec_no_slash _) (dec_ne _)). fold nm.
+  unfold bindR. destruct (run_popen_fddir_emu pf t HP) as (pfd & Hpo & Sp).
+  rewrite (run_bind s rp), Hpo. cbv iota.
+  pose proof (stk_top t pfd _ [] Sp) as Hp.
+  assert (Hfd1 : tget ([(pfd, P_FDDIR s)] ++ t) fd = Some o) by (apply (stk_old t _ fd o Sp Hfd)).
+  rewrite (run_bind s rp), (run_fetch_mnt s rp fz _ pfd _ Hp).
+  destruct (Nat.leb_spec (PB s) (P_FDDIR s)) as [_|Hb]; [|unfold P_FDDIR in Hb; lia]. cbv iota.
+  rewrite (run_bind s rp). unfold verify_same_mnt, bindR. rewrite (run_bind s rp).
+  assert (Hst : run ([(pfd, P_FDDIR s)] ++ t) (fetch_mnt_id fz pfd nm) = Done ([(pfd, P_FDDIR s)] ++ t) (Ok (Some PROC_MNT))).
+  { unfold fetch_mnt_id, w_statx, simple1, rustix_path. rewrite (tget_valid _ _ _ Hp).
+    unfold nm. rewrite dec_no_nul. cbn [negb bind Static.run].
+    unfold answer. cbn [sem]. rewrite Hp. rewrite (dec_not_nil (Z.to_N fd)). rewrite Nat.eqb_refl.
+    rewrite parse_dec_dec, Z2N.id by exact Hpos. rewrite Hfd1.
+    cbn [as_statx bind Static.run]. change (intersects STATX_WANT_MASK STATX_WANT_MASK) with true. reflexivity. }
+  rewrite Hst. cbv iota. cbn [opt_n_eqb]. rewrite (N.eqb_refl PROC_MNT). cbn [Static.run]. cbv iota.
+  rewrite (run_bind s rp). unfold os, map_err, w_openat_follow, rustix_path.
+  rewrite (tget_valid _ _ _ Hp). unfold nm. rewrite dec_no_nul. fold nm. cbn [negb bind Static.run].
+  unfold answer. cbn [sem]. rewrite Hp, Nat.eqb_refl.
+  pose proof (reopen_flags_follow flags) as Hnf. fold fl in Hnf. rewrite Hnf. cbn [negb andb].
+  unfold nm. rewrite parse_dec_dec, Z2N.id by exact Hpos. rewrite Hfd1, Hdir.
+  set (T1 := [(pfd, P_FDDIR s)] ++ t).
+  cbn [as_fd]. pose proof (fresh_ge3 T1). destruct (Z.leb_spec 0 (fresh T1)); [|lia]. cbn [Static.run]. cbv iota.
+  cbn [bind Static.run]. cbv beta iota. rewrite (run_bind s rp), run_close. cbn [Static.run].
+  exists (fresh T1). f_equal.
+  assert (S2 : Stk t [(fresh T1, o); (pfd, P_FDDIR s)]) by (apply (stk_alloc t _ _ Sp)).
+  change ((fresh T1, o) :: T1) with ([(fresh T1, o); (pfd, P_FDDIR s)] ++ t).
+  rewrite (stk_close_second t _ _ pfd _ [] S2). reflexivity.
+Qed.
+
+End ROE.
